@@ -375,9 +375,9 @@ def conforms(spec, v):
             else:
                 if round(v * 10 ** spec[4]) != round(spec[1] * 10 ** spec[4]):
                     return False
-        if spec[2] is not Nil and v < spec[2]:
+        if spec[2] is not Nil and not (v >= spec[2]):     # "lies within min/max": a NaN lies within nothing
             return False
-        if spec[3] is not Nil and v > spec[3]:
+        if spec[3] is not Nil and not (v <= spec[3]):
             return False
         return True
     if k == "str":
